@@ -253,7 +253,7 @@ class Runner:
                     return False
                 target["pid"] = alive[0]
                 return True
-            if p.get("x") != x:
+            if x is not None and p.get("x") != x:
                 return False
             if when == "body" and p.get("attempt") != att:
                 return False
